@@ -5,9 +5,10 @@
 (*                                                                         *)
 (*   reset                                                                 *)
 (*   calc   {inp, out}     first calculation: out must satisfy BatchOutOK  *)
-(*   raise  {inp, out}     inp must dominate the previous input (only      *)
-(*                         consumption inputs raised); out must satisfy    *)
-(*                         BatchOutOK and must not exceed the previous out *)
+(*   raise  {what,k,by,out} one consumption input raised by by[r] >= 0 and  *)
+(*                         the calculation repeated: out must satisfy      *)
+(*                         BatchOutOK for the raised input and must not    *)
+(*                         exceed the previous out                         *)
 (*   mcalc / mraise        the same for the mid tier                       *)
 (*                                                                         *)
 (* Every check is a property-level predicate of Reclaim.tla evaluated on   *)
@@ -22,7 +23,8 @@ vars == <<inp, outp, n>>
 
 Init == inp = <<>> /\ outp = <<>> /\ n = 0
 
-Take == inp' = Ev.inp /\ outp' = Ev.out /\ n' = n + 1
+Take(i) == inp' = i /\ outp' = Ev.out /\ n' = n + 1
+Step == [what |-> Ev.what, k |-> Ev.k, by |-> Ev.by]
 
 \* diagnostics for the verbose second pass only (never enables anything)
 Verbose == "VERIF_VERBOSE" \in DOMAIN IOEnv
@@ -35,35 +37,37 @@ TCalc ==
   /\ IsEvent("calc")
   /\ Explain(BatchOutOK(Ev.inp, Ev.out), WhyBatch(Ev.inp, Ev.out))
   /\ BatchOutOK(Ev.inp, Ev.out)
-  /\ Take
+  /\ Take(Ev.inp)
 
 TRaise ==
   /\ IsEvent("raise")
   /\ n > 0
-  /\ Explain(Dominates(Ev.inp, inp), {"NotARaise"})
-  /\ Dominates(Ev.inp, inp)
-  /\ Explain(BatchOutOK(Ev.inp, Ev.out), WhyBatch(Ev.inp, Ev.out))
-  /\ BatchOutOK(Ev.inp, Ev.out)
-  /\ Explain(MonoOK(outp, Ev.out), {"Mono"})
-  /\ MonoOK(outp, Ev.out)
-  /\ Take
+  /\ Explain(RaiseOK(inp, Step), {"NotARaise"})
+  /\ RaiseOK(inp, Step)
+  /\ LET j == ApplyRaise(inp, Step) IN
+       /\ Explain(BatchOutOK(j, Ev.out), WhyBatch(j, Ev.out))
+       /\ BatchOutOK(j, Ev.out)
+       /\ Explain(MonoOK(outp, Ev.out), {"Mono"})
+       /\ MonoOK(outp, Ev.out)
+       /\ Take(j)
 
 TMCalc ==
   /\ IsEvent("mcalc")
   /\ Explain(MidOutOK(Ev.inp, Ev.out), {"MidOut"})
   /\ MidOutOK(Ev.inp, Ev.out)
-  /\ Take
+  /\ Take(Ev.inp)
 
 TMRaise ==
   /\ IsEvent("mraise")
   /\ n > 0
-  /\ Explain(MidDominates(Ev.inp, inp), {"NotARaise"})
-  /\ MidDominates(Ev.inp, inp)
-  /\ Explain(MidOutOK(Ev.inp, Ev.out), {"MidOut"})
-  /\ MidOutOK(Ev.inp, Ev.out)
-  /\ Explain(MidMonoOK(outp, Ev.out), {"MidMono"})
-  /\ MidMonoOK(outp, Ev.out)
-  /\ Take
+  /\ Explain(MidRaiseOK(inp, Step), {"NotARaise"})
+  /\ MidRaiseOK(inp, Step)
+  /\ LET j == MidApplyRaise(inp, Step) IN
+       /\ Explain(MidOutOK(j, Ev.out), {"MidOut"})
+       /\ MidOutOK(j, Ev.out)
+       /\ Explain(MidMonoOK(outp, Ev.out), {"MidMono"})
+       /\ MidMonoOK(outp, Ev.out)
+       /\ Take(j)
 
 TypeOK == n >= 0
 
